@@ -38,7 +38,7 @@ def run(tier, replay=None):
     env = common.san_env(dict(VERIF_PADSET=','.join(map(str, pad)), VERIF_NOPADSET=','.join(map(str, nopad))))
     extra = 0 if tier == 'quick' else 10000
     sh = common.Sharded(exe, lambda a, b: ['c02', common.seed(), a, b, path, extra], len(imgs), env=env, chunk=4, tag='c02',
-                        timeout=3600).run()
+                        timeout=1500).run()
     common.absorb(res, sh)
     st = common.merge_stats(sh.stats)
     res.evaluations = st.get('mutated', 0) + st.get('images', 0)
